@@ -466,6 +466,9 @@ type G struct {
 	results []Ty
 	loops   int
 	size    int // remaining statement budget
+	mut     string         // requested composite mutation ("" for none)
+	mutDone bool           // the mutation has been applied
+	rules   map[string]int // scenarios emitted
 }
 
 func (g *G) fresh() int { g.next++; return g.next }
@@ -769,6 +772,9 @@ func (g *G) declVar(id int, t Ty) {
 
 func (g *G) stmt(d int) []Stmt {
 	g.size--
+	if g.r.Intn(100) < 22 {
+		return g.compStmt()
+	}
 	n := g.r.Intn(100)
 	switch {
 	case n < 10: // var x T = e
@@ -1151,6 +1157,24 @@ func avoided(p *Prog) bool {
 			}
 		}
 	}, func(s Stmt) {
+		// the comma-ok forms (v, ok = m[k], v, ok = x.(T)) are outside the
+		// fragment of the model: an arity mutation can produce one
+		commaOK := func(xs []int, es []Expr) {
+			if len(xs) == 2 && len(es) == 1 {
+				switch es[0].(type) {
+				case *Index, *Assert:
+					found = true
+				}
+			}
+		}
+		switch x := s.(type) {
+		case *Assign:
+			commaOK(x.Xs, x.Es)
+		case *Short:
+			commaOK(x.Xs, x.Es)
+		case *VarS:
+			commaOK(x.Xs, x.Es)
+		}
 		if c, ok := s.(*ConstS); ok && c.T != nil && avoid["typed-const-keeps-untyped-repr"] {
 			i := c.E.inf()
 			if !i.Bad && !i.Typed && numeric(i.class()) && i.class() != classOf(c.T.B) {
@@ -1171,7 +1195,14 @@ func avoided(p *Prog) bool {
 
 // Program generates a well typed program.
 func genProgram(r *rand.Rand) *Prog {
-	g := &G{r: r, imports: map[int]bool{}, size: 12 + r.Intn(25)}
+	p, _ := genProgramMut(r, "", nil)
+	return p
+}
+
+// genProgramMut generates a program with one ill typed variant of a composite
+// scenario (mut != ""); ok reports that the variant was emitted.
+func genProgramMut(r *rand.Rand, mut string, rules map[string]int) (prog *Prog, ok bool) {
+	g := &G{r: r, imports: map[int]bool{}, size: 12 + r.Intn(25), mut: mut, rules: rules}
 	p := &Prog{}
 	g.push() // package scope
 	// package level constants and variables (initialised by constant expressions or earlier globals)
@@ -1240,6 +1271,7 @@ func genProgram(r *rand.Rand) *Prog {
 	}
 	g.results = nil
 	p.Main = g.block(2+r.Intn(6), 2, false, []*ent{})
+	p.Main = append(p.Main, g.forced()...)
 	// import exactly the packages that the final program uses
 	usedPkgs := map[int]bool{}
 	p.walk(func(e *Expr) {
@@ -1253,5 +1285,5 @@ func genProgram(r *rand.Rand) *Prog {
 		}
 	}
 	g.pop()
-	return p
+	return p, g.mutDone
 }
